@@ -12,7 +12,7 @@ HEADER = ("From Coq Require Import String ZArith List Bool.\nImport ListNotation
 
 TRUSTED_COMMON = [
     "Coq 8.16.1 kernel and VM (vm_compute); no native_compute; no axioms (Print Assumptions: closed under the global context)",
-    "model coq/theories/GEnumModel.v: the functions the template emits (decoders, encoders, Parse<T>, table functions, accessor) are interpreters of control skeletons regenerated from genum/gen/enumTemplate.gotmpl on every run (translator harness/cmd/xlate_genum_skel: text/template/parse + go/parser, trusted to print what it reads; the tie proves skels_ok of its output and the theorems hold for every such record); extract_underlying / family filters tied to genum/gen/traits.go by harness/cmd/xlate_genum_traits (C05, C12); the generator layer (generate.go, values.go: constant collection, Less, ValueDeduplicatedSet, processDuplicates, validations, ParsableValuesOf) is hand-written and tied by the generator-farm correspondence only",
+    "model coq/theories/GEnumModel.v: the functions the template emits (decoders, encoders, Parse<T>, table functions, accessor) are interpreters of control skeletons regenerated from genum/gen/enumTemplate.gotmpl on every run (translator harness/cmd/xlate_genum_skel: text/template/parse + go/parser, trusted to print what it reads; the tie proves skels_ok of its output and the theorems hold for every such record; both translators read the package genum/gen through harness/internal/srcset — build context, every file — and the tie also proves srcfacts_ok: one embedded template, no function map, no init, no package-level mutable state); extract_underlying / family filters tied to genum/gen/traits.go by harness/cmd/xlate_genum_traits (C05, C12); the generator layer (generate.go, values.go: constant collection, Less, ValueDeduplicatedSet, processDuplicates, validations, ParsableValuesOf) is hand-written and tied by the generator-farm correspondence only",
     "go/types + go/constant evaluation of constant expressions (cross-checked: the farm writes source from intended values and compares them with the compiled constants)",
     "Go harness harness/cmd/genumfarm (definition generator, renderer, observer dumplib), Go 1.23 toolchain, fmt %d, strings.ToLower on ASCII names",
 ]
@@ -97,10 +97,12 @@ def skeleton_tie(ctx, traits_go=True):
     def diagnose(gen_src):
         diag = ("From Coq Require Import String List Bool.\nFrom GT Require Import GEnumModel.\n" + GEN_HEADER +
                 "Eval vm_compute in (dskel_ok CoJSON (sk_json gen_skels), dskel_ok CoText (sk_text gen_skels), "
-                "dskel_ok CoYAML (sk_yaml gen_skels), parse_skel_ok (sk_parse gen_skels), small_ok gen_skels).\n")
+                "dskel_ok CoYAML (sk_yaml gen_skels), parse_skel_ok (sk_parse gen_skels), small_ok gen_skels, srcfacts_ok gen_srcfacts).\n"
+                "Eval vm_compute in gen_srcfacts.\n")
         _, o4 = ctx.coq_eval("GEnumSkelDiag", diag)
         m = vlib.re.search(r"=\s*(\(.*?\))\s*:", o4, vlib.re.S)
-        return ": skels_ok gen_skels = false, (json, text, yaml, parse, small functions) = " + (" ".join(m.group(1).split()) if m else "?")
+        return (": well-formedness of (json, text, yaml decoder, Parse, small functions, package source facts) = " +
+                (" ".join(m.group(1).split()) if m else "?") + "\n" + o4[-1500:])
 
     if traits_go:
         _run_tie(ctx, "xlate_genum_traits", "GEnumTraitsGen", "Tie_GEnumTraits", "genum/gen/traits.go")
@@ -187,7 +189,21 @@ def run_batches(ctx, mode, quick_n, thorough_batches, thorough_n):
     return terms, jsons, None
 
 
-def run_farm(ctx, mode, n=0, corpus=False, defs=None, tag="farm", timeout=3000, seed=None):
+def source_literals(ctx):
+    """integer literals of the generator source under test (thresholds, widths): the widened search aims at them"""
+    import re as _re
+    lits = set()
+    d = os.path.join(ctx.copy_repo(), "genum", "gen")
+    for n in sorted(os.listdir(d)):
+        if n.endswith(".go") or n.endswith(".gotmpl"):
+            for m in _re.finditer(r"(?<![\w.])(\d{1,7})(?![\w.])", open(os.path.join(d, n), errors="replace").read()):
+                v = int(m.group(1))
+                if 2 <= v <= 5000000:
+                    lits.add(v)
+    return sorted(lits)[:32]
+
+
+def run_farm(ctx, mode, n=0, corpus=False, defs=None, tag="farm", timeout=3000, seed=None, wide=False):
     """one farm batch: returns (terms, jsons, err)"""
     binp, log = farm_bin(ctx)
     if not binp:
@@ -200,6 +216,8 @@ def run_farm(ctx, mode, n=0, corpus=False, defs=None, tag="farm", timeout=3000, 
         args.append("-corpus")
     if seed is not None:
         args += ["-seed", seed]
+    if wide:
+        args += ["-wide", "-steer", ",".join(str(x) for x in source_literals(ctx))]
     if defs is not None:
         dp = os.path.join(work, "defs.json")
         with open(dp, "w") as f:
@@ -433,11 +451,32 @@ def report_all(ctx, mode, case_type, judge, jsons, bad, features, explain, widen
     v2 = [jsons[i] for i, code in bad if code != 1]
     # unlisted failing inputs first (they get the replay files), then the ones matching open findings
     v1.sort(key=lambda j: known(ctx, features(j)))
+    def wide_search(found):
+        """a tie is broken and no failing input is known: search beyond the caps of the ordinary generator (more
+        constants, more trait columns, long / non-ASCII names, values around width boundaries), steered by the
+        integer literals of the source under test; bounded: widen_n files, one farm run"""
+        if found or not getattr(ctx, "_tie_failures", None):
+            return False
+        ctx.log("a translator tie is broken and no failing input is known: widened search beyond the generator's caps")
+        terms, wj, err = run_farm(ctx, mode, n=min(widen_n, 16), corpus=False, seed=ctx.seed + 104729, tag="wide", wide=True)
+        if err:
+            ctx.log("widened search failed: " + err[-300:])
+            return False
+        wbad, _, err = ctx.judge_cases(header_of(ctx), case_type, judge_of(ctx, judge), terms, shard=shard, tag="wide")
+        if err:
+            return False
+        wv1 = [wj[i] for i, code in wbad if code == 1 and not known(ctx, features(wj[i]))]
+        ctx.cov["wide_search"] = {"evaluations": len(wj), "spec_violations": len(wv1), "steered_by": source_literals(ctx)}
+        got = report_v1(wv1)
+        ctx._have_failing_input = got
+        return got
+
     have_failing = report_v1(v1)
     ctx._have_failing_input = have_failing
     ctx.cov["spec_violations"] = len(v1)
     ctx.cov["model_only_disagreements"] = len(v2)
     if not v2:
+        wide_search(have_failing)
         report_tie()
         return
     ctx.cov["model_only_samples"] = [slim(j, maxlist=4) for j in v2[:2]]
@@ -451,6 +490,7 @@ def report_all(ctx, mode, case_type, judge, jsons, bad, features, explain, widen
                 ctx.cov["widened_run"] = {"evaluations": len(wj), "spec_violations": len(wv1)}
                 have_failing = report_v1(wv1)
     ctx._have_failing_input = have_failing
+    have_failing = wide_search(have_failing) or have_failing
     report_tie()
     if have_failing:
         ctx.log("%d further case(s) satisfy the specification but differ from the model (listed in the evidence)" % len(v2))
